@@ -87,6 +87,18 @@ func (x *Exec) step(st *State, in ssa.Instruction) {
 		}
 		v := x.val(st, i.Val)
 		x.storePtr(st, p, deref(i.Addr.Type()), x.coerce(v, i.Val.Type(), deref(i.Addr.Type())))
+		// intermediate assertions "assert after-store T.f <expr>": proved right after every assignment to
+		// the field in the function under verification, then available as a fact on that path
+		if fa, isF := i.Addr.(*ssa.FieldAddr); isF && x.fc != nil && len(x.fc.AssertAfterStore) > 0 && i.Parent() == x.fn {
+			st0 := deref(fa.X.Type())
+			for _, cl := range x.fc.AssertAfterStore[typeKey(st0)+"."+fieldName(st0, fa.Field)] {
+				env := x.envFor(x.fn, st, x.entry, nil)
+				env.locals = true
+				env.pos = i.Pos()
+				t := x.evalBool(cl.Expr, env)
+				x.oblige(st, "assert", "after the assignment: "+cl.Text, i.Pos(), t, cl.Props, cl.Text)
+			}
+		}
 	case *ssa.BinOp:
 		x.regs[i] = x.binop(st, i.Op, x.val(st, i.X), x.val(st, i.Y), i.X.Type(), i.Y.Type(), i.Type(), i.Pos(), true)
 	case *ssa.Phi:
